@@ -1046,34 +1046,55 @@ func dischargeSlice(e *Env, s panicSite) (string, bool) {
 	return "slice bounds not shown to be in range", false
 }
 
-// indentPushesOne: Printer.Indent stores append(<the indents field>, <one element>) into that field.
+// indentPushesOne: Printer.Indent puts append(<the indents field>, <one element>) into that field,
+// directly or through a setter of the package that stores its parameter there.
 func indentPushesOne(e *Env) (string, bool) {
 	fn := e.P.Func("internal/cmd/runner", "Printer.Indent")
 	if fn == nil {
 		return "Printer.Indent not found", false
 	}
-	for _, b := range fn.Blocks {
-		for _, ins := range b.Instrs {
-			st, ok := ins.(*ssa.Store)
-			if !ok {
-				continue
+	storesParamIntoIndents := func(g *ssa.Function, pi int) bool {
+		if g == nil || pi >= len(g.Params) {
+			return false
+		}
+		for _, b := range g.Blocks {
+			for _, ins := range b.Instrs {
+				if st, ok := ins.(*ssa.Store); ok && st.Val == ssa.Value(g.Params[pi]) {
+					if fa, ok := st.Addr.(*ssa.FieldAddr); ok && fieldName(fa) == "indents" && len(g.Blocks) == 1 {
+						return true
+					}
+				}
 			}
-			fa, ok := st.Addr.(*ssa.FieldAddr)
-			if !ok || fieldName(fa) != "indents" {
-				continue
-			}
-			ap, ok := st.Val.(*ssa.Call)
-			if !ok {
-				continue
-			}
-			if bi, isB := ap.Call.Value.(*ssa.Builtin); !isB || bi.Name() != "append" || len(ap.Call.Args) != 2 {
-				continue
-			}
-			if !derivesFromField(ap.Call.Args[0], "indents", 0) {
-				continue
-			}
-			if len(varargs(ap.Call.Args[1])) == 1 && len(fn.Blocks) == 1 {
-				return "", true
+		}
+		return false
+	}
+	if len(fn.Blocks) != 1 {
+		return "Printer.Indent is conditional", false
+	}
+	for _, ins := range fn.Blocks[0].Instrs {
+		ap, ok := ins.(*ssa.Call)
+		if !ok {
+			continue
+		}
+		if bi, isB := ap.Call.Value.(*ssa.Builtin); !isB || bi.Name() != "append" || len(ap.Call.Args) != 2 {
+			continue
+		}
+		if !derivesFromField(ap.Call.Args[0], "indents", 0) || len(varargs(ap.Call.Args[1])) != 1 {
+			continue
+		}
+		for _, ref := range *ap.Referrers() {
+			switch x := ref.(type) {
+			case *ssa.Store:
+				if fa, ok := x.Addr.(*ssa.FieldAddr); ok && fieldName(fa) == "indents" && x.Val == ssa.Value(ap) {
+					return "", true
+				}
+			case ssa.CallInstruction:
+				g := x.Common().StaticCallee()
+				for i, a := range x.Common().Args {
+					if a == ssa.Value(ap) && g != nil && e.P.InModule(g) && storesParamIntoIndents(g, i) {
+						return "", true
+					}
+				}
 			}
 		}
 	}
